@@ -517,6 +517,19 @@ func assignStmtOf(body *ast.BlockStmt, name string, occ int) ast.Stmt {
 			return false
 		}
 		hit := false
+		if name == "return" {
+			// anchor on the occ-th return statement of the function (the clause is checked just before it executes)
+			switch x := m.(type) {
+			case *ast.FuncLit:
+				return false
+			case *ast.ReturnStmt:
+				if n == occ {
+					found = x
+				}
+				n++
+			}
+			return true
+		}
 		if strings.HasPrefix(name, "call:") {
 			// anchor on the occ-th statement that is (or assigns the result of) a call of the named function
 			var call *ast.CallExpr
@@ -838,7 +851,11 @@ func (prog *Program) genSynth(p0 *packages.Package) (string, error) {
 					}
 				}
 			}
-			if err := emit(ac.Cl, false, "", "bool", stmt.End()); err != nil {
+			at := stmt.End()
+			if _, isRet := stmt.(*ast.ReturnStmt); isRet {
+				at = stmt.Pos()
+			}
+			if err := emit(ac.Cl, false, "", "bool", at); err != nil {
 				return err
 			}
 			callArgParams = nil
